@@ -1,7 +1,58 @@
 //! further ops (instance transformations, parsers) — extended as properties are added
-use anyhow::{bail, Result};
-use serde_json::Value;
+use crate::conv::*;
+use anyhow::{anyhow, bail, Result};
+use ommx::v1::{self, Function};
+use ommx::Evaluate;
+use serde_json::{json, Value};
 
-pub fn run(op: &str, _case: &Value) -> Result<Value> {
-    bail!("unknown op {op}")
+fn errv(e: anyhow::Error) -> Value {
+    json!({"err": format!("{e:#}")})
+}
+
+pub fn run(op: &str, case: &Value) -> Result<Value> {
+    Ok(match op {
+        "pe_then_eval" => {
+            let mut f: Function = msg(&case["f"])?;
+            let s1: v1::State = msg(&case["s1"])?;
+            let s2: v1::State = msg(&case["s2"])?;
+            match f.partial_evaluate(&s1) {
+                Ok(used) => {
+                    let mut out = json!({"f": enc(&f), "used": ids(used)});
+                    if let Ok((v, u2)) = f.evaluate(&s2) {
+                        out["value"] = fj(v);
+                        out["used2"] = ids(u2);
+                    }
+                    json!({"ok": out})
+                }
+                Err(e) => errv(e),
+            }
+        }
+        "pe_then_eval_instance" => {
+            let mut inst: v1::Instance = msg(&case["instance"])?;
+            let s1: v1::State = msg(&case["s1"])?;
+            let s2: v1::State = msg(&case["s2"])?;
+            match inst.partial_evaluate(&s1) {
+                Ok(used) => {
+                    let mut out = json!({"instance": enc(&inst), "used": ids(used)});
+                    match inst.evaluate(&s2) {
+                        Ok((sol, u2)) => {
+                            out["solution"] = enc(&sol);
+                            out["used2"] = ids(u2);
+                        }
+                        Err(e) => {
+                            out["eval_err"] = json!(format!("{e:#}"));
+                        }
+                    }
+                    json!({"ok": out})
+                }
+                Err(e) => errv(e),
+            }
+        }
+        _ => bail!("unknown op {op}"),
+    })
+}
+
+#[allow(dead_code)]
+fn unused() -> anyhow::Error {
+    anyhow!("x")
 }
